@@ -21,3 +21,36 @@ def run(ctx, tie_rel, timeout=900):
             ctx.oblige("gen-compiles:Fun2.v", False, out[-800:])
             return False
     return core.compile_and_record(ctx, os.path.join(core.COQ, tie_rel), tie_rel, extra_q=q, subdir="Tie", timeout=timeout)
+
+
+def run_items(ctx, timeout=900):
+    """Tie/C03items.v: verify_item_rules / verify_all_item_rules regenerated from /repo (Gen/Fun3.v) on top of the
+    regenerated unpack_rule (Gen/Fun.v, Tie/C17.v) and rule functions (Gen/Fun2.v, Tie/C03.v)"""
+    gen = os.path.join(ctx.work, "Gen")
+    tie = os.path.join(ctx.work, "Tie")
+    os.makedirs(tie, exist_ok=True)
+    for cmd in ([os.path.join(core.ROOT, "tools", "pytrans.py"), core.REPO, gen, "Fun.v"],
+                [os.path.join(core.ROOT, "tools", "pytrans2.py"), core.REPO, gen, "--items"]):
+        p = subprocess.run([sys.executable] + cmd, capture_output=True, text=True)
+        if p.returncode != 0:
+            ctx.oblige("translator:Tie/C03items.v", False, (p.stdout + p.stderr)[-800:])
+            return False
+    q = ["-Q", gen, "InToto.Gen", "-Q", tie, "InToto.Tie"]
+    for g in ("Fun.v", "Fun2.v", "Fun3.v"):
+        if os.path.exists(os.path.join(gen, g + "o")) and g != "Fun3.v":
+            continue
+        rc, out = core.coqc(os.path.join(gen, g), extra_q=q, timeout=timeout)
+        if rc != 0:
+            ctx.oblige("gen-compiles:" + g, False, out[-800:])
+            return False
+    import shutil
+    for dep in ("C17.v", "C03.v"):
+        dst = os.path.join(tie, dep)
+        if not os.path.exists(dst + "o"):
+            shutil.copy(os.path.join(core.COQ, "Tie", dep), dst)
+            rc, out = core.coqc(dst, extra_q=q, timeout=timeout)
+            if rc != 0:
+                ctx.oblige("tie-dependency-compiles:Tie/" + dep, False, out[-800:])
+                return False
+    return core.compile_and_record(ctx, os.path.join(core.COQ, "Tie", "C03items.v"), "Tie/C03items.v", extra_q=q,
+                                   subdir="Tie", timeout=timeout)
